@@ -375,14 +375,24 @@ def wrapper_contracts():
     c('skip_while', params=dict(collection=IT, predicate=TFunc(1)),
       ensures=['result == ufn("itertools.dropwhile", predicate, '
                'old_collection)', 'collection.pos == 0'])
-    c('skip', params=dict(collection=IT, count=TInt),
-      requires=['count >= 0'],
-      ensures=['result.seq == old_collection.seq[count:]',
-               'collection.pos == 0'])
     c('limit', params=dict(collection=IT, count=TInt),
       requires=['count >= 0'],
       ensures=['result.seq == old_collection.seq[:count]',
-               'collection.pos == 0'])
+               'collection.pos == 0'],
+      # the same meaning should the operator be written as a generator:
+      # the first `count` elements, each emitted as soon as it is pulled,
+      # and nothing pulled beyond the last one emitted
+      gen_form=dict(track_pulls='collection', ensures=[
+          'out == SRC.seq[:count]',
+          'forall(range(0, len(out)), lambda k: pulls[k] == k + 1)',
+          'SRC.pos == len(out)']))
+    c('skip', params=dict(collection=IT, count=TInt),
+      requires=['count >= 0'],
+      ensures=['result.seq == old_collection.seq[count:]',
+               'collection.pos == 0'],
+      gen_form=dict(track_pulls='collection', ensures=[
+          'out == SRC.seq[count:]',
+          'forall(range(0, len(out)), lambda k: pulls[k] == count + k + 1)']))
     c('select', params=dict(collection=TSeq(TVal), selector=TFunc(1)),
       ensures=['len(result) == len(collection)',
                'forall(range(0, len(collection)), lambda k: result[k] == '
